@@ -6,6 +6,13 @@ from loc import canon, item_of, next_kind, fmt, loop_of, call_name
 from lin import Finding
 
 
+def _und(rule, view, what, bb=None, detail=""):
+    """the construct the rule reads was not found in this formulation of the impl: no verdict (DESIGN §14.5)"""
+    f = finding(rule, view, what + ": not recognised (undecided)", bb, detail)
+    f.undecided = True
+    return f
+
+
 def finding(rule, view, what, bb=None, detail=""):
     at = view.blocks[bb]["term"].get("at", "") if bb is not None else view.b.span
     return Finding(rule, view.b.path, what, at, detail)
@@ -242,7 +249,7 @@ def seq_rules(view, bs, coll, want_enumerate=True, label="sequence"):
         else:
             out.append(finding("C06.SEQ", view, "the result collection is modified by %s (only push/insert of the element just deserialised is allowed)" % (base or "an indirect call"), bb))
     if not adds:
-        out.append(finding("C06.SEQ", view, "no push/insert into the result collection found"))
+        out.append(_und("C06.SEQ", view, "no push/insert into the result collection found"))
     for bb, c, base in adds:
         ob += 1
         t = view.blocks[bb]["term"]
@@ -269,7 +276,10 @@ def seq_rules(view, bs, coll, want_enumerate=True, label="sequence"):
                 out.append(finding("C06.SEQ", view, "the payload iterator is adapted by %s (order/selection of elements may change)" % nm, nbb))
         srcc = canon(view, src)
         if not (srcc[0] == "field" and srcc[1] == ("param", 1) and srcc[2] in ("Sequence", "Map")):
-            out.append(finding("C06.SEQ", view, "the loop does not iterate over the input's own %s" % label, nbb, fmt(srcc)))
+            if srcc[0] == "call" and view.callee(srcc[1]) is not None and view.callee(srcc[1]).krate == "deserr" and view.callee(srcc[1]).deserr_trait() is None:
+                out.append(_und("C06.SEQ", view, "what the loop iterates over comes out of a local function (%s)" % call_name(view, srcc), nbb, fmt(srcc)))
+            else:
+                out.append(finding("C06.SEQ", view, "the loop does not iterate over the input's own %s" % label, nbb, fmt(srcc)))
     # at most one adder per loop
     loops = {}
     for bb, c, base in adds:
@@ -293,7 +303,7 @@ def c_seq(view, bs):
     # the result: Ok payload
     oks = [x for x in ok_assignments(view) if x[0] == "ok"]
     if not oks:
-        return [finding("C06.SEQ", view, "no Ok result found")], 1
+        return [_und("C06.SEQ", view, "no Ok result found")], 1
     for _, bb, term, op in oks:
         ob += 1
         res_local = None
@@ -303,7 +313,7 @@ def c_seq(view, bs):
             if al and all(a == ("multi", c_l) or (a[0] == "call" and a[1] == c_bb) or (a[0] == "multi" and a[1] in move_class(view, c_l)) for a in al):
                 res_local = c_l
         if res_local is None:
-            out.append(finding("C06.SEQ", view, "the Ok result is not the collection that was filled element by element (it is transformed before being returned)", bb, fmt(term)))
+            out.append(_und("C06.SEQ", view, "the Ok result is not the collection that was filled element by element (it is transformed before being returned)", bb, fmt(term)))
             continue
         fs, o2, adds = seq_rules(view, bs, res_local)
         out += fs
@@ -410,7 +420,7 @@ def c_array(view, bs):
                     ob += o2
                     good = True
     if not good:
-        out.append(finding("C06.SEQ", view, "the Ok result is not the checked conversion (try_into / <[T; N]>::try_from) of the vector filled element by element"))
+        out.append(_und("C06.SEQ", view, "the Ok result is not the checked conversion (try_into / <[T; N]>::try_from) of the vector filled element by element"))
     return out, ob
 
 
@@ -441,7 +451,7 @@ def c_tuple(view, bs):
     oks = [x for x in ok_assignments(view) if x[0] == "ok"]
     ob += 1
     if len(oks) != 1:
-        out.append(finding("C06.ARITY", view, "expected exactly one Ok result"))
+        out.append(_und("C06.ARITY", view, "expected exactly one Ok result"))
         return out, ob
     term = oks[0][2]
     if not (term[0] == "agg" and term[1] == "tuple" and len(term[2]) == n):
@@ -489,7 +499,7 @@ def c_map(view, bs, coll=None, key_parsed=True):
                         res_local = l
     ob += 1
     if res_local is None:
-        return [finding("C06.MAP", view, "the Ok result is not the map that was filled entry by entry")], ob
+        return [_und("C06.MAP", view, "the Ok result is not the map that was filled entry by entry")], ob
     fs, o2, adds = seq_rules(view, bs, res_local, label="map")
     out += fs
     ob += o2
